@@ -95,6 +95,42 @@ func classifyUnreachable(g comet.VerifHNSWGraphState, dist comet.Distance, u uin
 	return "hnsw.orphaned-by-nearest-M-pruning"
 }
 
+// flushChangedSurvivingEdges compares the layer-0 adjacency before and after a Flush: for every vertex that survives,
+// its old list restricted to surviving vertices must be its new list (as a set). Returns the first difference.
+func flushChangedSurvivingEdges(before, after comet.VerifHNSWGraphState) (uint32, string) {
+	ids := make([]uint32, 0, len(after.Nodes))
+	for id := range after.Nodes {
+		ids = append(ids, id)
+	}
+	sort.Slice(ids, func(i, j int) bool { return ids[i] < ids[j] })
+	for _, w := range ids {
+		ob, ok := before.Nodes[w]
+		if !ok {
+			continue
+		}
+		oldSet := map[uint32]bool{}
+		if len(ob.Edges) > 0 {
+			for _, x := range ob.Edges[0] {
+				if _, survives := after.Nodes[x]; survives {
+					oldSet[x] = true
+				}
+			}
+		}
+		newSet := map[uint32]bool{} // (edges a Flush ADDS cannot cut anything off: not looked at)
+		if na := after.Nodes[w]; len(na.Edges) > 0 {
+			for _, x := range na.Edges[0] {
+				newSet[x] = true
+			}
+		}
+		for x := range oldSet {
+			if !newSet[x] {
+				return w, fmt.Sprintf("(the Flush removed edge %d->%d although both vertices survive it)", w, x)
+			}
+		}
+	}
+	return 0, ""
+}
+
 func runC12(r *ev.Run) {
 	r.Rule = "case = (M in 2..32, ef, dim 1..32, metric, Add/Remove/Flush history with adversarial removal targets read from the graph: entry point, first inserted, highest level, hubs, all neighbours of the entry point). " +
 		"Stream 'exact': <=2M resident vectors, efC/efS >= 2M: every answer must equal exact k-NN (complete listing vs float64 model + restricted probes). " +
@@ -391,7 +427,10 @@ func runC12(r *ev.Run) {
 				}
 			}
 		}
+		var flushPrev *comet.VerifHNSWGraphState // the graph right before the Flush being judged
+		flushWhy := ""
 		checkReach := func(before map[uint32]bool) {
+			flushWhy = ""
 			if pending > 0 || len(m.live) == 0 {
 				return
 			}
@@ -417,12 +456,21 @@ func runC12(r *ev.Run) {
 				switch {
 				case before != nil && before[id]:
 					sig = "hnsw.unreachable.cut-off-by-flush"
+					// the recorded defect is that Flush deletes the tombstoned vertices and their edges WITHOUT repairing
+					// anything; a Flush that also changes edges between two surviving vertices is something else
+					if flushPrev != nil {
+						if w, why := flushChangedSurvivingEdges(*flushPrev, g); why != "" {
+							sig = "hnsw.unreachable.flush-changed-edges-between-surviving-vertices"
+							_ = w
+							flushWhy = why
+						}
+					}
 				case flushHappened:
 					sig = "hnsw.unreachable.in-graph-thinned-by-earlier-flush"
 				default:
 					sig = classifyUnreachable(g, dist, id, unreach, false)
 				}
-				rep(sig, fmt.Sprintf("live vertex %d (of %d) is not reachable from entry point %d over layer-0 edges; %d unreachable in total", id, len(m.live), g.EntryPoint, len(unreach)))
+				rep(sig, fmt.Sprintf("live vertex %d (of %d) is not reachable from entry point %d over layer-0 edges; %d unreachable in total %s", id, len(m.live), g.EntryPoint, len(unreach), flushWhy))
 			}
 			// corroboration through the public API: k = n, ef >= n must return every reachable live id
 			if len(m.live) <= 400 || rng.IntN(4) == 0 {
@@ -543,6 +591,126 @@ func runC12(r *ev.Run) {
 				rep(sig, fmt.Sprintf("with %d soft deletes pending and no Flush so far, live vertex %d (of %d) is not reachable from entry point %d over layer-0 edges even through tombstones%s; %d resident vertices unreachable", pending, u, len(m.live), g.EntryPoint, how, len(unreach)))
 			}
 		}
+		// afterOp (graphs up to 400 vertices): reachability through tombstones is recomputed after EVERY operation and every
+		// loss is attributed to the operation that caused it, whatever flushes came before:
+		//  - an Add can only take in-links away by pruning an over-full neighbour list: for every vertex x that was reachable
+		//    before the Add and is not after it, each vertex w that dropped its edge w->x must now hold a FULL list (2M) of
+		//    vertices none of which is farther from w than x (then the loss is the recorded nearest-M orphaning);
+		//  - the vertex just inserted is judged by the local criterion, which is sharp for it in any state (its back-links
+		//    are created by this very Add and removed only by pruning an over-full list);
+		//  - a Remove only sets a tombstone, so it may not change reachability through tombstones at all;
+		//  - losses caused by a Flush are judged by checkReach (cut-off-by-flush).
+		perOp := target <= 400
+		var prevG comet.VerifHNSWGraphState
+		var prevReach map[uint32]bool
+		has := func(l []uint32, x uint32) bool {
+			for _, y := range l {
+				if y == x {
+					return true
+				}
+			}
+			return false
+		}
+		e0 := func(n comet.VerifHNSWNode) []uint32 {
+			if len(n.Edges) == 0 {
+				return nil
+			}
+			return n.Edges[0]
+		}
+		afterOp := func(kind string, newID uint32) {
+			if !perOp {
+				return
+			}
+			g := comet.VerifHNSWGraph(idx)
+			reach := hnswReach(g, true)
+			defer func() { prevG, prevReach = g, reach }()
+			if prevReach == nil || kind == "flush" {
+				return
+			}
+			r.Count("invariant:per-op-reachability-checks", 1)
+			var lost []uint32
+			anyLive := false
+			for x := range prevG.Nodes {
+				if _, still := g.Nodes[x]; still && prevReach[x] && !reach[x] {
+					lost = append(lost, x)
+					if m.live[x] {
+						anyLive = true
+					}
+				}
+			}
+			sort.Slice(lost, func(i, j int) bool { return lost[i] < lost[j] })
+			if anyLive {
+				sig, why := "hnsw.orphaned-by-nearest-M-pruning", ""
+				if kind == "remove" {
+					sig, why = "hnsw.unreachable.caused-by-remove", "a Remove only sets a tombstone"
+				} else {
+					for _, x := range lost {
+						nx := g.Nodes[x]
+						ws := make([]uint32, 0, len(prevG.Nodes))
+						for w := range prevG.Nodes {
+							ws = append(ws, w)
+						}
+						sort.Slice(ws, func(i, j int) bool { return ws[i] < ws[j] })
+						for _, w := range ws {
+							if !has(e0(prevG.Nodes[w]), x) {
+								continue
+							}
+							nw, ok := g.Nodes[w]
+							if !ok || has(e0(nw), x) {
+								continue
+							}
+							// w dropped x during this Add
+							dwx := dist.Calculate(nw.Vector, nx.Vector)
+							if len(e0(nw)) < 2*g.M {
+								sig, why = "hnsw.unreachable.neighbour-with-room-does-not-link-back", fmt.Sprintf("vertex %d dropped its edge to %d although its list holds %d < %d entries", w, x, len(e0(nw)), 2*g.M)
+								break
+							}
+							for _, y := range e0(nw) {
+								if ny, ok := g.Nodes[y]; ok {
+									if d := dist.Calculate(nw.Vector, ny.Vector); float64(d) > float64(dwx)*(1+1e-6) {
+										sig, why = "hnsw.unreachable.dropped-although-closer-than-a-kept-neighbour", fmt.Sprintf("vertex %d dropped its edge to %d (distance %g, soft-deleted=%v) but keeps %d at distance %g", w, x, dwx, !m.live[x], y, d)
+										break
+									}
+								}
+							}
+							if why != "" {
+								break
+							}
+						}
+						if why != "" {
+							break
+						}
+					}
+				}
+				var liveLost []uint32
+				for _, x := range lost {
+					if m.live[x] && !classified[x] {
+						classified[x] = true
+						liveLost = append(liveLost, x)
+					}
+				}
+				if len(liveLost) > 0 {
+					rep(sig, fmt.Sprintf("the %s of %d made %d live vertices unreachable from entry point %d (through tombstones), e.g. %v; %s", kind, newID, len(liveLost), g.EntryPoint, head(liveLost, 4), why))
+				}
+			}
+			if kind == "add" && m.live[newID] && !reach[newID] && !classified[newID] {
+				classified[newID] = true
+				unreach := map[uint32]bool{}
+				liveReachable := 0
+				for x := range g.Nodes {
+					if !reach[x] {
+						unreach[x] = true
+					} else if m.live[x] {
+						liveReachable++
+					}
+				}
+				sig := classifyUnreachable(g, dist, newID, unreach, false)
+				if sig == "hnsw.unreachable.isolated-vertex" && liveReachable == 0 {
+					sig = "hnsw.unreachable.isolated-vertex.no-live-vertex-reachable-when-inserted"
+				}
+				rep(sig, fmt.Sprintf("vertex %d is unreachable from entry point %d (through tombstones) right after its own insertion; %d resident vertices unreachable, %d live reachable", newID, g.EntryPoint, len(unreach), liveReachable))
+			}
+		}
 		step := 0
 		for len(m.resident) < target && step < 4*target {
 			step++
@@ -556,10 +724,13 @@ func runC12(r *ev.Run) {
 					return
 				}
 				m.add(id, v)
+				afterOp("add", id)
 				if len(m.resident)%16 == 0 || len(m.resident) < 3*M {
 					checkReach(nil)
 				}
-				checkReachPending()
+				if !perOp {
+					checkReachPending()
+				}
 			case c < 19:
 				// adversarial removals chosen on the graph
 				g := comet.VerifHNSWGraph(idx)
@@ -620,12 +791,17 @@ func runC12(r *ev.Run) {
 					m.remove(id)
 					pending++
 					r.Count("ops:remove:"+what, 1)
+					afterOp("remove", id)
 				}
 			default:
 				var before map[uint32]bool
 				if pending > 0 {
-					checkReachPending()
-					before = hnswReach(comet.VerifHNSWGraph(idx), true)
+					if !perOp {
+						checkReachPending()
+					}
+					gb := comet.VerifHNSWGraph(idx)
+					flushPrev = &gb
+					before = hnswReach(gb, true)
 				}
 				hist = append(hist, histOp{Op: "flush"})
 				if err := idx.Flush(); err != nil {
@@ -638,14 +814,20 @@ func runC12(r *ev.Run) {
 				pending = 0
 				r.Count("ops:flush", 1)
 				checkReach(before)
+				flushPrev = nil
+				afterOp("flush", 0)
 			}
 			if step%4 == 0 || pending > 0 {
 				checkNonEmpty()
 			}
 		}
 		if pending > 0 {
-			checkReachPending()
-			before := hnswReach(comet.VerifHNSWGraph(idx), true)
+			if !perOp {
+				checkReachPending()
+			}
+			gb := comet.VerifHNSWGraph(idx)
+			flushPrev = &gb
+			before := hnswReach(gb, true)
 			idx.Flush()
 			m.flush()
 			pending = 0
